@@ -73,6 +73,11 @@ pub enum Op {
     AR,
     /// Verify the held read window again, then consume `m` through it.
     CR { m: usize },
+    /// Two write windows at once (the stream allows it when no read window
+    /// is live): commit `n1` good samples through the first, then `n2`
+    /// through the second, where `n2` fits the second window but not the
+    /// space that is left. Must be refused.
+    WW { n1: usize, n2: usize },
 }
 
 impl Op {
@@ -85,6 +90,7 @@ impl Op {
             Op::CW { k, n, pat } => json!({"op":"CW","write":k,"commit":n,"tags":format!("{pat:?}")}),
             Op::AR => json!({"op":"AR"}),
             Op::CR { m } => json!({"op":"CR","consume":m}),
+            Op::WW { n1, n2 } => json!({"op":"WW","first":n1,"second":n2}),
         }
     }
     pub fn from_json(v: &Value) -> Op {
@@ -113,6 +119,10 @@ impl Op {
             },
             "AW" => Op::AW,
             "AR" => Op::AR,
+            "WW" => Op::WW {
+                n1: v["first"].as_u64().unwrap() as usize,
+                n2: v["second"].as_u64().unwrap() as usize,
+            },
             _ => Op::F,
         }
     }
@@ -330,6 +340,43 @@ impl<T: Elem> Sys<T> {
                 if f != cap - self.m.q.len() {
                     return fail("free", format!("free() = {f}, model {}", cap - self.m.q.len()));
                 }
+            }
+            Op::WW { n1, n2 } => {
+                let room = cap - self.m.q.len();
+                let mut w1 = match self.w.write_buf() {
+                    Ok(x) => x,
+                    Err(e) => return fail("window", format!("write_buf failed: {e}")),
+                };
+                // A stream may refuse a second write window: nothing to check then.
+                let w2 = match catch(|| self.w.write_buf()) {
+                    Ok(Ok(x)) => x,
+                    _ => {
+                        drop(w1);
+                        self.refused = true;
+                        return Ok(());
+                    }
+                };
+                assert!(n1 >= 1 && n1 <= room && n2 <= w2.len() && n1 + n2 > room);
+                for i in 0..n1 {
+                    w1.slice()[i] = T::from_serial((self.m.next + i as u64) % T::modulus());
+                }
+                if let Err(e) = catch(move || w1.produce(n1, &[])) {
+                    return fail("commit-panic", format!("commit of {n1} (room {room}) panicked: {e}"));
+                }
+                for i in 0..n1 {
+                    self.m.q.push_back((self.m.next + i as u64, vec![]));
+                }
+                self.m.next += n1 as u64;
+                let left = room - n1;
+                let r = catch(move || w2.produce(n2, &[]));
+                if r.is_ok() {
+                    return fail(
+                        "over-commit-accepted",
+                        format!("commit of {n2} through a second write window accepted with {left} free"),
+                    );
+                }
+                self.refused = true;
+                return Ok(());
             }
             Op::AW => {
                 let wb = match self.w.write_buf() {
@@ -573,6 +620,17 @@ fn successors(key: &Key, cap: usize, pats: &[TagPat]) -> Vec<Op> {
     if key.held_w.is_none() {
         ops.push(Op::AW);
     }
+    if key.held_w.is_none() && key.held_r.is_none() && free >= 1 {
+        let mut seen = vec![];
+        for n1 in [1, free] {
+            for n2 in [free - n1 + 1, free] {
+                if !seen.contains(&(n1, n2)) {
+                    seen.push((n1, n2));
+                    ops.push(Op::WW { n1, n2 });
+                }
+            }
+        }
+    }
     // Consumer side.
     let rlimit = key.held_r.unwrap_or(key.used);
     for m in amounts(rlimit, cap - key.rpos, cap) {
@@ -634,6 +692,7 @@ fn shape(hist: &[Op], step: usize, _cap: usize) -> String {
         Some(Op::AR) => "acquire-read".into(),
         Some(Op::CW { n, .. }) => format!("held-commit{}", if *n == 0 { "0" } else { "N" }),
         Some(Op::CR { m }) => format!("held-consume{}", if *m == 0 { "0" } else { "N" }),
+        Some(Op::WW { .. }) => "two-write-windows".into(),
         None => "init".into(),
     }
 }
@@ -812,10 +871,16 @@ pub fn nondividing<T: Elem>(rep: &mut Report, cfg: &RingCfg) {
         Ok(Ok(_)) => {
             // Accepted: then it has to work, including across the wrap.
             let cap = cfg.size / sz;
-            let offs: Vec<usize> = vec![0, 1, cap / 2, cap - 2, cap - 1];
+            let mut offs: Vec<usize> = vec![0, 1, cap / 2, cap.saturating_sub(2), cap.saturating_sub(1)];
+            offs.retain(|o| *o < cap.max(1));
+            offs.sort();
+            offs.dedup();
             let before = rep.violations.len();
             let mut tmp = Report::new(cfg.prop, "ring");
-            sweep::<T>(&mut tmp, cfg, &offs, &[0, 1, cap - 1, cap], 2);
+            let mut pre = vec![0, 1, cap.saturating_sub(1), cap];
+            pre.sort();
+            pre.dedup();
+            sweep::<T>(&mut tmp, cfg, &offs, &pre, 2);
             rep.evaluations += tmp.evaluations;
             rep.transitions += tmp.transitions;
             rep.traces_validated += tmp.traces_validated;
@@ -870,6 +935,7 @@ pub fn replay_json(v: &Value) -> Result<(), String> {
         "[u8;3]" => go!([u8; 3]),
         "[u8;12]" => go!([u8; 12]),
         "[u8;24]" => go!([u8; 24]),
+        "[u8;8192]" => go!([u8; 8192]),
         x => Err(format!("unknown elem {x}")),
     }
 }
@@ -954,6 +1020,9 @@ pub fn run(prop: &'static str, tier: &str, shard: Option<&str>) -> Report {
         nondividing::<[u8; 24]>(&mut rep, &mk(PAGE, &small));
         nondividing::<[u8; 3]>(&mut rep, &mk(2 * PAGE, &small));
         nondividing::<[u8; 24]>(&mut rep, &mk(2 * PAGE, &small));
+        // Divides the doubled mapping but not the buffer.
+        nondividing::<[u8; 8192]>(&mut rep, &mk(3 * PAGE, &small));
+        nondividing::<[u8; 8192]>(&mut rep, &mk(5 * PAGE, &small));
     }
     rep
 }
